@@ -21,6 +21,8 @@ from harness.common import Failure, Spec, coq_list
 #   "errsub"/"failsub": the Deferred errbacks with an instance of a strict SUBCLASS of twisted.python.failure.Failure
 #   (as PB's CopiedFailure or application subclasses are); for the property, the model and the oracle this is a plain
 #   failure: the function must observe a raised exception.  dsub[d]: D[d] is an instance of a Deferred subclass.
+#   ["cancelup", lvl]: log it, then — from inside the RUNNING function — cancel the Deferred returned by the call lvl
+#   levels up the call stack (0 = this function's own); a call whose Deferred has not been handed out yet is skipped
 # stmt = ["await", d] | ["yield", z] | ["mark", n] | ["raise", n] | ["return", z] | ["returnvalue", z] | ["call", body] | ["seq", a, b]
 #      | ["try", body, handler] | ["finally", body, fin] | ["loop", n, body]
 
@@ -95,13 +97,16 @@ def _src(s, ind, variant, defs):
     if k == "loop":
         return [f"{pad}for _ in range({s[1]}):"] + _src(s[2], ind + 1, variant, defs)
     if k == "call":
-        # a nested @inlineCallbacks function (coroutine under ensureDeferred) with this body
+        # a nested @inlineCallbacks function (coroutine under ensureDeferred) with this body; `call` invokes it
+        # (and, under the real driver, keeps the stack of the Deferreds handed out, for cancel_up)
         idx = len(defs)
         defs.append(None)
         name = f"f{idx + 1}"
         defs[idx] = _fundef(name, s[1], variant, defs) + ([f"{name} = wrap({name})"] if variant == "gen" else [])
-        rhs = f"(yield {name}(D, log))" if variant == "gen" else f"await wrap({name}(D, log))"
+        rhs = f"(yield call({name}, D, log))" if variant == "gen" else f"await call({name}, D, log)"
         return [f"{pad}x = {rhs}", f"{pad}log.append('v' + canon(x))"]
+    if k == "cancelup":
+        return [f"{pad}log.append('k{s[1]}')", f"{pad}cancel_up({s[1]})"]
     raise ValueError(s)
 
 
@@ -145,9 +150,12 @@ def _oracle_return_value(v):
     raise OracleReturn(v)
 
 
-def compile_f(body, variant, wrap=None, return_value=None):
+def compile_f(body, variant, wrap=None, return_value=None, call=None, cancel_up=None):
     ns = {"UserErr": UserErr, "BaseErr": BaseErr, "canon": canon, "canon_exc": canon_exc,
-          "wrap": wrap or (lambda x: x), "returnValue": return_value or _oracle_return_value}
+          "wrap": wrap or (lambda x: x), "returnValue": return_value or _oracle_return_value,
+          # under the oracle's own driver a nested call is an ordinary call, and cancelling from inside a running
+          # function cancels nothing (the function is not waiting on anything)
+          "call": call or (lambda fn, D, log: fn(D, log)), "cancel_up": cancel_up or (lambda lvl: None)}
     exec(compile(source(body, variant), f"<c05-{variant}>", "exec"), ns)
     return ns["f"]
 
@@ -248,12 +256,33 @@ def impl(case) -> str:
         hold(d)
     import warnings
     warnings.filterwarnings("ignore", category=DeprecationWarning)      # returnValue is deprecated
+    stack = []          # one cell per active call, outermost first: the Deferred it returned (None until handed out)
+
+    def call(fn, D_, log_):
+        cell = [None]
+        stack.append(cell)
+        d = fn(D_, log_) if case["variant"] == "gen" else defer.ensureDeferred(fn(D_, log_))
+        cell[0] = d
+
+        def done(r):
+            if cell in stack:
+                stack.remove(cell)
+            return r
+        d.addBoth(done)
+        return d
+
+    def cancel_up(lvl):
+        i = len(stack) - 1 - lvl
+        if i >= 0 and stack[i][0] is not None:
+            stack[i][0].cancel()
+
     if case["variant"] == "gen":
-        f = compile_f(case["body"], "gen", wrap=defer.inlineCallbacks, return_value=defer.returnValue)
-        res = defer.inlineCallbacks(f)(D, log)
+        f = compile_f(case["body"], "gen", wrap=defer.inlineCallbacks, return_value=defer.returnValue,
+                      call=call, cancel_up=cancel_up)
+        res = call(defer.inlineCallbacks(f), D, log)
     else:
-        f = compile_f(case["body"], "coro", wrap=defer.ensureDeferred)
-        res = defer.ensureDeferred(f(D, log))
+        f = compile_f(case["body"], "coro", wrap=defer.ensureDeferred, call=call, cancel_up=cancel_up)
+        res = call(f, D, log)
     out = []
     res.addCallbacks(lambda v: out.append("R:" + canon(v)), lambda fl: out.append("R:" + canon_exc(fl.value)))
     for op in case["sched"]:
@@ -267,10 +296,16 @@ def impl(case) -> str:
         obs = " ".join(log) + " | TWICE " + " ".join(out)
     else:
         obs = " ".join(log) + " | " + (out[0] if out else "S")
-    # cleanup only (after the observation has been taken)
-    for dd in D + [x[0] for x in inners.values()]:
-        dd.addErrback(lambda fl: None)
-    return obs
+    # after the observation has been taken: no AlreadyCalledError may have leaked into an awaited Deferred's own chain
+    leaks = []
+    for d, dd in enumerate(D):
+        def final(r, d=d):
+            if hasattr(r, "check") and r.check(defer.AlreadyCalledError):
+                leaks.append(str(d))
+        dd.addBoth(final)
+    for x in inners.values():
+        x[0].addErrback(lambda fl: None)
+    return obs + (" LEAK:" + ",".join(leaks) if leaks else "")
 
 
 def sync_run(case):
@@ -389,6 +424,9 @@ def oracle(case, obs):
     seen = head.split(" ") if head else []
     want_log, want_res = sync_run(case)
     v = case["variant"]
+    if " LEAK:" in tail:
+        return Failure(case, "AlreadyCalledError leaked into the callback chain of awaited Deferred(s) " +
+                       tail.split(" LEAK:")[1] + ": " + obs, f"{v}-alreadycalled-leak")
     if tail.startswith("TWICE"):
         return Failure(case, "the returned Deferred fired more than once: " + obs, f"{v}-result-twice")
     if [t for t in seen if t[0] == "c"] != [t for t in want_log if t[0] == "c"]:
@@ -418,8 +456,10 @@ def _rand_stmt(rng, depth, nd, fresh=None):
             return ["yield", rng.randrange(100, 110)]
         if r2 < 0.8:
             return ["mark", rng.randrange(10)]
-        if r2 < 0.87:
+        if r2 < 0.84:
             return ["raise", rng.randrange(20, 25)]
+        if r2 < 0.87:
+            return ["cancelup", rng.randrange(0, 3)]
         if r2 < 0.9:
             return ["raisebase", rng.randrange(30, 33)]
         if r2 < 0.94 and fresh is None:
@@ -496,6 +536,11 @@ def gen(rng, tier):
         ["try", ["call", ["seq", ["await", 0], ["seq", ["await", 1], ["returnvalue", 9]]]], ["await", 2]],
         ["finally", ["call", ["finally", ["call", ["await", 0]], ["await", 1]]], ["mark", 3]],
         ["try", ["seq", ["await", 0], ["try", ["call", ["seq", ["await", 1], ["raisebase", 31]]], ["mark", 4]]], ["mark", 5]],
+        # cancelled from inside while running: the outer call / its own, then return, raise, or suspend again
+        ["try", ["seq", ["call", ["seq", ["await", 0], ["seq", ["cancelup", 1], ["return", 5]]]], ["await", 1]], ["mark", 6]],
+        ["seq", ["try", ["call", ["seq", ["await", 0], ["seq", ["cancelup", 0], ["raise", 9]]]], ["mark", 1]],
+         ["seq", ["await", 1], ["seq", ["cancelup", 0], ["return", 3]]]],
+        ["call", ["call", ["seq", ["await", 0], ["seq", ["cancelup", 2], ["seq", ["await", 1], ["cancelup", 1]]]]]],
     ]
     for body in small:
         ds = sorted(set(_awaits(body)))
@@ -540,6 +585,15 @@ def gen(rng, tier):
 
 def corpus():
     return [
+        # cancel while RUNNING: the inner coroutine / generator, just resumed, cancels the outer Deferred and finishes
+        {"variant": "coro", "body": ["try", ["seq", ["call", ["seq", ["await", 0], ["seq", ["cancelup", 1], ["raise", 21]]]],
+                                                ["mark", 1]], ["await", 1]],
+         "outs": [["ok", 10], ["ok", 11]], "cancs": [["nothing"], ["nothing"]], "chains": ["none", "none"],
+         "dsub": [False, False], "pre": [], "sched": [["fire", 0], ["fire", 1]]},
+        {"variant": "gen", "body": ["seq", ["call", ["seq", ["await", 0], ["seq", ["cancelup", 1], ["return", 5]]]], ["return", 6]],
+         "outs": [["ok", 10]], "cancs": [["nothing"]], "chains": ["none"], "dsub": [False], "pre": [], "sched": [["fire", 0]]},
+        {"variant": "coro", "body": ["seq", ["await", 0], ["seq", ["cancelup", 0], ["return", 5]]],
+         "outs": [["ok", 10]], "cancs": [["nothing"]], "chains": ["plus"], "dsub": [False], "pre": [], "sched": [["fire", 0]]},
         # awaited Deferreds with their own chain, fired while pause()d and unpaused later (coroutine and generator)
         {"variant": "coro", "body": ["seq", ["await", 0], ["return", 1]], "outs": [["ok", 10]], "cancs": [["nothing"]],
          "chains": ["plus"], "dsub": [False], "pre": [], "prehold": [0], "sched": [["cancel"], ["fire", 0]]},
@@ -593,6 +647,8 @@ def _stmt_coq(s):
         return f"(SReturnValue ({s[1]})%Z)"
     if k == "call":
         return f"(SCall {_stmt_coq(s[1])})"
+    if k == "cancelup":
+        return f"(SCancelUp {s[1]})"
     name = {"seq": "SSeq", "try": "STry", "finally": "SFinally"}[k]
     return f"({name} {_stmt_coq(s[1])} {_stmt_coq(s[2])})"
 
@@ -667,7 +723,7 @@ SPEC = Spec(
          "position, two cancellations} with random canceller behaviour per Deferred, as generators (quick: 15% sample, "
          "thorough 60%); 350 (quick) / 4000 (thorough) random "
          "structured programs of depth <= 4 (await, plain yield, mark, raise, return, returnValue, seq, try/except, "
-         "try/finally, loops, nested calls) over up to 10 Deferreds, 60% as @inlineCallbacks generators, 40% as coroutines under ensureDeferred "
+         "try/finally, loops, nested calls, cancel of an enclosing call's Deferred from inside the running function) over up to 10 Deferreds, 60% as @inlineCallbacks generators, 40% as coroutines under ensureDeferred "
          "(each Deferred awaited once), random pre-fired subset and arrival order, 60% with 1-3 cancellations at random "
          "positions; non-trivial = at least two awaits and "
          "the function ran to completion; distinct by (case, observation)",
